@@ -344,14 +344,13 @@ class Registration(Endpoint):
             elif p.fragment:
                 raise InvalidRedirectURIError("redirect_uri contains fragment")
 
-            if _custom:  # Can not verify a custom scheme
-                verified_redirect_uris.append((uri, {}))
+            # A custom scheme URI can not be verified any further, but like the others it is
+            # stored as base and query: the query component is part of what is registered.
+            base, query = split_uri(uri)
+            if query:
+                verified_redirect_uris.append((base, query))
             else:
-                base, query = split_uri(uri)
-                if query:
-                    verified_redirect_uris.append((base, query))
-                else:
-                    verified_redirect_uris.append((base, {}))
+                verified_redirect_uris.append((base, {}))
 
         return verified_redirect_uris
 
